@@ -1318,10 +1318,16 @@ func c14Current(c *fw.Ctx, r *rng.R) {
 			calls++
 			if calls == 1 {
 				for j := i + 1; j < n; j++ {
-					if (j+prelude)%2 == 0 {
+					switch (j + prelude + n) % 3 {
+					case 0:
 						l.Replace(j, fmt.Sprintf("new%d", j))
-					} else {
+					case 1:
 						l.SetTF(fmt.Sprintf("#%d", j), fmt.Sprintf("new%d", j)) // the same write spelled as a path (the last index among them)
+					default:
+						// the element is taken out and its successor put in at the same index: the list has its length again
+						// before the callback returns, no other element has moved
+						l.Delete(j)
+						l.Insert(j, fmt.Sprintf("new%d", j))
 					}
 				}
 			}
